@@ -30,6 +30,8 @@ class _Pol(InlineOnly):
 
 
 def check(run, prog, tier):
+    from . import model as _model
+    _model.audit(run, prog, 'C18')
     run.explanation = (
         "Both decoders are reduced to path formulas over the unpacked header tuple; they are compared as "
         "siblings: same format constant, same accept/reject decision and same constructed fields on every "
@@ -252,8 +254,16 @@ def check(run, prog, tier):
         cs = calls_to(p, read.qual)
         ok = p.returns() and len(cs) == 1 and cs[0].args[:1] == (("attr", ("self", "header.SOMEIPReader"), "reader"),) \
             and p.retval() == ("await", cs[0].result)
-        run.ob("S3", f"{wr.qual}:delegates", ok, loc(wr),
-               "returns await SOMEIPHeader.read(self.reader) unchanged" if ok else f"returns {show(p.retval()) if p.returns() else p.outcome}")
+        # ... and what the delegate raises (ParseError, IncompleteReadError) reaches the caller: no handler around the call,
+        # no exception-swallowing wrapper around the method
+        guarded = bool(cs) and any(level for level in (cs[0].handlers or ()))
+        swallowed = wr.log_exceptions
+        run.ob("S3", f"{wr.qual}:delegates", ok and not guarded and not swallowed, loc(wr),
+               "returns await SOMEIPHeader.read(self.reader) unchanged, its exceptions pass through" if ok and not guarded and not swallowed else
+               (f"{wr.qual} is wrapped by @log_exceptions: a rejected header / a stream that ends inside a message is logged and answered with None "
+                "instead of the error the datagram decoder raises" if swallowed else
+                "the call is inside a try that handles what the delegate raises" if guarded else
+                f"returns {show(p.retval()) if p.returns() else p.outcome}"))
 
 
 def _safe(fn, p, leaf):
